@@ -473,3 +473,33 @@ Proof.
               (Nat.le_0_l _) Hk Hg) as [um [sz [fs' [j [e Ht]]]]].
   rewrite Ht. cbn. destruct um; reflexivity.
 Qed.
+
+(* ---------------------------------------------------------------- any single variant satisfies the group *)
+Lemma try_paths_first_good f u v p ps pi fs reqs err k :
+  vpaths v = p :: ps ->
+  ignore_errors f = false -> ignore_missing f = false ->
+  k < max_tries -> good v (rbody (nth_resp (script_of u p) k)) = true ->
+  exists um sz fs' reqs' e, try_paths f u v (vpaths v) pi fs reqs err = VRDone um sz pi fs' reqs' e.
+Proof.
+  intros Hp H1 H2 Hk Hg. rewrite Hp. cbn [try_paths].
+  destruct (try_path_absorbs f v p (script_of u p) H1 H2 max_tries 0 k fs 0 err
+              (Nat.le_0_l _) Hk Hg) as [um [sz [fs' [j [e Ht]]]]].
+  rewrite Ht. eauto 10.
+Qed.
+
+Lemma group_any_variant_lemma f u : forall pre vi fs reqs err v post p ps k,
+  vpaths v = p :: ps ->
+  ignore_errors f = false -> ignore_missing f = false ->
+  k < max_tries -> good v (rbody (nth_resp (script_of u p) k)) = true ->
+  exists j, out_variant (r_out (try_variants f u (pre ++ v :: post) vi fs reqs err)) = Some j /\
+            vi <= j /\ j <= vi + List.length pre.
+Proof.
+  induction pre as [|w r IH]; intros vi fs reqs err v post p ps k Hp H1 H2 Hk Hg; cbn [app try_variants].
+  - destruct (try_paths_first_good f u v p ps 0 fs reqs err k Hp H1 H2 Hk Hg)
+      as [um [sz [fs' [reqs' [e Ht]]]]].
+    rewrite Ht. exists vi. cbn. split; [destruct um; reflexivity|lia].
+  - destruct (try_paths f u w (vpaths w) 0 fs reqs err) as [um sz pi fs' reqs' e|fs' reqs' e].
+    + exists vi. cbn. split; [destruct um; reflexivity|lia].
+    + destruct (IH (S vi) fs' reqs' e v post p ps k Hp H1 H2 Hk Hg) as [j [Hj [Hl Hu]]].
+      exists j. split; [exact Hj|]. cbn [List.length]. lia.
+Qed.
